@@ -2,6 +2,7 @@ package xrand
 
 import (
 	"context"
+	"errors"
 
 	"github.com/bradenaw/juniper/iterator"
 	"github.com/bradenaw/juniper/stream"
@@ -65,4 +66,54 @@ func VerifShuffle(n int) {
 		vAssert(cnt == 1, "shuffle/permutation")
 	}
 	vCover("shuffle")
+}
+
+//verif:case C08,C09 quick VerifSampleStreamOwnership 0..3 1..2 0..1
+
+type vSampleSrc struct {
+	n, pos     int
+	errPos     int
+	E          error
+	closes     int
+	afterClose int
+}
+
+func (s *vSampleSrc) Next(ctx context.Context) (int, error) {
+	if s.closes > 0 {
+		s.afterClose++
+	}
+	if s.errPos >= 0 && s.pos >= s.errPos {
+		return 0, s.E
+	}
+	if s.pos >= s.n {
+		return 0, stream.End
+	}
+	s.pos++
+	return s.pos - 1, nil
+}
+func (s *vSampleSrc) Close() { s.closes++ }
+
+// VerifSampleStreamOwnership: SampleStream closes the stream it is given exactly once, whether
+// it ends normally or fails, and reports the source's error itself.
+func VerifSampleStreamOwnership(n int, k int, faulty int) {
+	E := errors.New("E")
+	src := &vSampleSrc{n: n, errPos: -1, E: E}
+	if faulty == 1 {
+		p := vNondetInt("faultPos")
+		vAssume(vAnd(0 <= p, p <= n))
+		src.errPos = vConcretize(p)
+	}
+	out, err := SampleStream[int](context.Background(), src, k)
+	if faulty == 1 {
+		vAssert(err == E, "C08:samplestream/returns-the-source-error-itself")
+	} else {
+		want := k
+		if n < k {
+			want = n
+		}
+		vAssert(err == nil && len(out) == want, "C08:samplestream/no-error")
+	}
+	vAssert(src.closes == 1, "C09:samplestream/source-closed-exactly-once")
+	vAssert(src.afterClose == 0, "C09:samplestream/no-next-after-close")
+	vCover("samplestream-ownership")
 }
